@@ -153,9 +153,22 @@ func c18Build(cs *c18Case) (status, msg string) {
 	}
 	// the interface the container must describe, from a freshly lowered module (Compile works on a clone, but be safe)
 	if m4, _, err := drive.Front(cs.Src); err == nil && cs.EpIdx < len(m4.EntryPoints) {
-		c18IfaceRequest(&cs.req, m4, &m4.EntryPoints[cs.EpIdx], c18BindingMap(cs.BMName, m4), cs.Family == "gen" || cs.Family == "genx")
+		c18IfaceRequest(&cs.req, m4, &m4.EntryPoints[cs.EpIdx], c18BindingMap(cs.BMName, m4), cs.Family == "gen" || cs.Family == "genx" || cs.Family == "big")
 	}
 	return "", ""
+}
+
+// c18BitcodeSize returns BitcodeSize of the DXIL part (0 if there is none).
+func c18BitcodeSize(bin []byte) int {
+	ct, err := dxbc.ParseContainer(bin)
+	if err != nil {
+		return 0
+	}
+	d := ct.FindPart("DXIL")
+	if d == nil || len(d.Data) < 24 {
+		return 0
+	}
+	return int(binary.LittleEndian.Uint32(d.Data[20:]))
 }
 
 // c18Encode decodes the container and renders the trace of the case (container number cidx).
@@ -744,7 +757,7 @@ func runC18(tier, replay string) int {
 		replayBytes, replayErr = os.ReadFile(replay)
 	}
 	c := core.NewCtx("C18", tier, "model_checking")
-	c.Cov["rule"] = "Containers returned by dxil.Compile are decoded by the independent DXBC/LLVM-bitstream reader harness/dxbc into an event stream (header, part table, parts, program header, hashes, signature and PSV0 records, every ENTER_SUBBLOCK / DEFINE_ABBREV / record / END_BLOCK with bit positions, type/value/metadata index uses, DXIL metadata); TLC validates every event against the format automaton spec/Dxbc.tla (DxbcTrace.tla; many containers per run, per-container verdicts). Programs: seeded generator of single-entry vertex/fragment/compute modules (scalars, vectors, matrices, uniform/storage buffers, control flow, helper calls, IO structs, builtins), semantic-family compute programs, and every corpus entry point dxil.Compile accepts; configurations: shader model 6.0-6.6 x binding map {none, shift, perm, sparse} x {retail, bypass} hash. Each case is compiled twice on one module and once on a re-lowered module (identical bytes required). The expected interface (signature elements, resources, entry name, thread counts) is derived from the IR entry point by the harness. A case is one (program, entry point, configuration); it is non-trivial when its DXIL part holds a function body that decoded; distinct by program text + configuration. Design level: DxbcMC.tla (abstract bit writer with back-patched lengths, container builder, module) over all nestings to depth 3; every seeded fault must be rejected; corrupted copies of DXC-built and naga-built containers must be rejected with the expected rule."
+	c.Cov["rule"] = "Containers returned by dxil.Compile are decoded by the independent DXBC/LLVM-bitstream reader harness/dxbc into an event stream (header, part table, parts, program header, hashes, signature and PSV0 records, every ENTER_SUBBLOCK / DEFINE_ABBREV / record / END_BLOCK with bit positions, type/value/metadata index uses, DXIL metadata); TLC validates every event against the format automaton spec/Dxbc.tla (DxbcTrace.tla; many containers per run, per-container verdicts). Programs: seeded generator of single-entry vertex/fragment/compute modules (scalars, vectors, matrices, uniform/storage buffers, control flow, helper calls, IO structs, builtins), semantic-family compute programs, programs of 60-2600 statements (5-200 KiB of bitcode; family big), and every corpus entry point dxil.Compile accepts; configurations: shader model 6.0-6.6 x binding map {none, shift, perm, sparse} x {retail, bypass} hash. Each case is compiled twice on one module and once on a re-lowered module (identical bytes required). The expected interface (signature elements, resources, entry name, thread counts) is derived from the IR entry point by the harness. A case is one (program, entry point, configuration); it is non-trivial when its DXIL part holds a function body that decoded; distinct by program text + configuration. Design level: DxbcMC.tla (abstract bit writer with back-patched lengths, container builder, module) over all nestings to depth 3; every seeded fault must be rejected; corrupted copies of DXC-built and naga-built containers must be rejected with the expected rule."
 	rng := rand.New(rand.NewSource(c.Seed))
 
 	// ---- design level + seeded faults (runs concurrently with the compilation work) -----------------------------------
@@ -811,6 +824,32 @@ func runC18(tier, replay string) int {
 		p := c18Generate(c.Seed, i, off)
 		cs := &c18Case{Family: famName, Shader: p.Name, Src: p.Src, base: -1}
 		cfg(cs, i)
+		cases = append(cases, cs)
+	}
+	// the size dimension: programs of 60 .. 2600 statements (5 .. 200 KiB of bitcode), straight-line and looped, compute and
+	// vertex; the quick tier always has one container above 32 KiB and one above 64 KiB of bitcode
+	type bigSpec struct {
+		n      int
+		looped bool
+		stage  string
+	}
+	odd := c.Seed%2 == 1
+	bigs := []bigSpec{{60, !odd, "compute"}, {500, odd, "vertex"}, {1000, !odd, "compute"}}
+	if !c.Quick() {
+		bigs = nil
+		for _, n := range []int{60, 300, 500, 1000} {
+			for _, l := range []bool{false, true} {
+				for _, st := range []string{"compute", "vertex"} {
+					bigs = append(bigs, bigSpec{n, l, st})
+				}
+			}
+		}
+		bigs = append(bigs, bigSpec{1600, false, "compute"}, bigSpec{1600, true, "vertex"}, bigSpec{2600, odd, "compute"})
+	}
+	for i, b := range bigs {
+		p := c18GenerateBig(c.Seed, i, b.n, b.looped, b.stage)
+		cs := &c18Case{Family: "big", Shader: p.Name, Src: p.Src, base: -1}
+		cfg(cs, 7*i+int(c.Seed))
 		cases = append(cases, cs)
 	}
 	// fixed probe programs: one per construct with a known defect (and clean controls)
@@ -1003,6 +1042,16 @@ func runC18(tier, replay string) int {
 			if cs.req.Iface == "check" {
 				cov["interface_expectation_checked"]++
 			}
+			switch bc := c18BitcodeSize(cs.bin); {
+			case bc > 64<<10:
+				cov["bitcode_over_64KiB"]++
+			case bc > 32<<10:
+				cov["bitcode_32_to_64KiB"]++
+			case bc > 8<<10:
+				cov["bitcode_8_to_32KiB"]++
+			default:
+				cov["bitcode_under_8KiB"]++
+			}
 			if cs.req.Res != "none" {
 				cov["resource_expectation."+cs.req.Res]++
 			}
@@ -1024,6 +1073,16 @@ func runC18(tier, replay string) int {
 			}
 		}
 		c.Cov["configurations"] = cov
+		// vacuity guard of the size dimension: the big programs that compiled must reach the sizes they are there for
+		nbig := 0
+		for _, cs := range valid {
+			if cs.Family == "big" {
+				nbig++
+			}
+		}
+		if replay == "" && os.Getenv("C18_ONLY") == "" && os.Getenv("C18_LIMIT") == "" && nbig == len(bigs) && (cov["bitcode_over_64KiB"] == 0 || cov["bitcode_32_to_64KiB"] == 0) {
+			c.BrokenF("size dimension miscalibrated: %d containers above 64 KiB and %d between 32 and 64 KiB of bitcode", cov["bitcode_over_64KiB"], cov["bitcode_32_to_64KiB"])
+		}
 	}
 
 	wgMC.Wait()
